@@ -3,8 +3,11 @@
 from common import Result, pmap, compare, enc_value, ERR_CODES, dec_value, canon_py
 
 ID = 'C08'
-COQ_FILES = ['Properties/C08.v', 'Proofs/ErrorFlowProofs.v', 'Proofs/LogicProofs.v', 'Proofs/ValueProofs.v', 'Proofs/ErrorLiteral.v', 'Proofs/LRfull.v']
+COQ_FILES = ['Properties/C08.v', 'Proofs/ErrorFlowProofs.v', 'Proofs/LogicProofs.v', 'Proofs/ValueProofs.v', 'Proofs/ErrorLiteral.v', 'Proofs/LRfull.v', 'Proofs/TrapSource.v', 'Model/TrapShape.v', 'Model/PredShape.v', 'Gen/TrapFns.v']
 TRUSTED = [
+    'Gen/TrapFns.v is regenerated on every run by tools/gen/trapshape.py (python ast, fail-closed) from IFERROR / IFNA of '
+    'formulas/logic.py and the ERROR.TYPE table of formulas/information.py; Model/TrapShape.v gives the shapes their meaning by '
+    'hand (conditional expression over a class test; dict.get on the canonical error singletons)',
     'modelled, not verified: eager bottom-up, left-to-right evaluation by the grammar actions (ply LR driver), '
     'Python exception propagation, Parser.call_function catching XLError at the call boundary',
     'non-error operator results come from Model/Operators.v (C06) and Model/Comparator.v (C07)',
@@ -362,6 +365,18 @@ def retuple(x):
 def _worker(kc):
     k, c = kc
     return [(k, c) + x for x in CHECKERS[k](c)]
+
+
+def gen(ctx):
+    import os
+    import sys
+    from common import VERIF
+    sys.path.insert(0, os.path.join(VERIF, 'tools', 'gen'))
+    import trapshape
+    root = os.environ.get('VERIF_SNAPSHOT', '/repo')
+    ch, ok, notes = trapshape.write(os.path.join(VERIF, 'coq', 'Gen', 'TrapFns.v'), root)
+    return {'Gen/TrapFns.v': ('regenerated (changed)' if ch else 'regenerated (identical to the committed baseline)')
+            + ('' if ok else '; NOT UNDERSTOOD: ' + '; '.join(notes))}
 
 
 def explore(ctx):
